@@ -218,13 +218,25 @@ class FileSplicer:
                 inner = [x for x in an.loops if x.body_open > L.body_open and x.body_close < L.body_close]
                 var = None
                 if s.word == 'breakassign':
-                    # `let PAT = loop {` -> `let PAT; loop {` ... `};` -> `}`
-                    if not (src.is_p(L.kw_si - 1, '=') and src.is_id(L.kw_si - 3, 'let')):
+                    # `let PAT = loop { .. break E; .. };` -> `let vx_b0; [let vx_b1;] loop { .. { vx_b0 = E; break; } .. } let PAT = vx_b0|(vx_b0, vx_b1);`
+                    # (fresh names: the pattern's names may be shadowed inside the loop body)
+                    if not src.is_p(L.kw_si - 1, '='):
                         raise SpliceError('lost anchor: fn %s loop %d is not `let x = loop`' % (key, li))
-                    var = src.t(L.kw_si - 2).text
-                    self.ed.replace(src.t(L.kw_si - 1).start, src.t(L.kw_si - 1).end, ';')
+                    if src.is_id(L.kw_si - 3, 'let') and src.is_id(L.kw_si - 2):
+                        let_si = L.kw_si - 3; nv = 1
+                    elif src.is_p(L.kw_si - 2, ')') and src.is_id(src.match(L.kw_si - 2) - 1, 'let'):
+                        po = src.match(L.kw_si - 2); let_si = po - 1
+                        nv = len([q for q in range(po + 1, L.kw_si - 2) if src.t(q).kind == 'ident'])
+                    else:
+                        raise SpliceError('lost anchor: fn %s loop %d is not `let x = loop`' % (key, li))
+                    pat_txt = src.text_of(let_si + 1, L.kw_si - 1)
+                    var = ['vx_b%d' % i for i in range(nv)]
+                    self.ed.replace(src.t(let_si).start, src.t(L.kw_si - 1).end, ' '.join('let %s;' % v for v in var))
+                    rhs = var[0] if nv == 1 else '(' + ', '.join(var) + ')'
                     if src.is_p(L.body_close + 1, ';'):
-                        self.ed.delete(src.t(L.body_close + 1).start, src.t(L.body_close + 1).end)
+                        self.ed.replace(src.t(L.body_close + 1).start, src.t(L.body_close + 1).end, '\nlet %s = %s;' % (pat_txt, rhs))
+                    else:
+                        raise SpliceError('lost anchor: fn %s loop %d: `let x = loop {..}` without `;`' % (key, li))
                 q = L.body_open + 1
                 while q < L.body_close:
                     if any(x.body_open <= q <= x.body_close for x in inner):
@@ -237,8 +249,12 @@ class FileSplicer:
                             e = q + 1
                             while not src.is_p(e, ';'):
                                 e = src.skip_group(e)
-                            self.ed.replace(src.t(q).start, src.t(q).end, '{ %s =' % var)
-                            self.ed.insert(src.t(e).end, ' break; }'); applied.append('N5')
+                            if len(var) == 1:
+                                self.ed.replace(src.t(q).start, src.t(q).end, '{ %s =' % var[0])
+                                self.ed.insert(src.t(e).end, ' break; }'); applied.append('N5')
+                            else:
+                                self.ed.replace(src.t(q).start, src.t(q).end, '{ let vx_t =')
+                                self.ed.insert(src.t(e).end, ' ' + ' '.join('%s = vx_t.%d;' % (v, i) for i, v in enumerate(var)) + ' break; }'); applied.append('N5')
                     q += 1
 
         # ---- N16: `?` desugar
